@@ -1,5 +1,6 @@
 import CarModel.Deferred
 import CarModel.Proofs.StoreInv
+import CarModel.Proofs.DeferredRun
 /-
 C20 — Deferred writer is lazy, then byte-identical to a direct writer.
 -/
@@ -93,6 +94,24 @@ theorem closed_after_close (o : WOpts) (d : Deferred) (hc : d.closed = true) (c 
     (d.step o (.has c)).2.res = .err .closed ∧ (d.step o (.put c data)).2.res = .err .closed ∧
     (d.step o .close).2.res = .err .closed ∧ (d.step o (.put c data)).2.fired = [] := by
   simp [Deferred.step, hc]
+
+/-- (5) **Any call sequence at once.** A fresh deferred writer, any sequence of OnPut / Has / Put / Close
+    calls: the bytes that have reached its target are exactly those of a directly constructed writer
+    (same roots, same options) run on the projection of the sequence — the Puts up to the first Close,
+    then Finalize — and nothing exists at all when no Put came before the first Close. By induction over
+    the sequence. -/
+theorem deferred_is_direct_on_projection (o : WOpts) (roots : Option (List Cid)) (ops : List DOp) :
+    (({ roots := roots } : Deferred).run o ops).output
+      = (projFresh ops).map fun l => (Store.run o (Store.create .storage o roots).1 l).1.file := by
+  have := deferred_run_fresh o ops { roots := roots } rfl rfl
+  simp only [Deferred.output, this, Option.map_map]
+  rfl
+
+/-- the projection on a concrete sequence: registrations and Has vanish, Puts after Close are dropped -/
+example : projFresh [.onPut 1 true, .has ⟨1, 0x55, 0, []⟩, .put ⟨1, 0x55, 0, [1]⟩ [1], .close, .put ⟨1, 0x55, 0, [2]⟩ [2], .close]
+    = some [.put ⟨1, 0x55, 0, [1]⟩ [1], .finalize] := by
+  simp [projFresh, projOps]
+example : projFresh [.onPut 1 true, .close, .put ⟨1, 0x55, 0, [2]⟩ [2]] = none := by simp [projFresh]
 
 /-- Non-vacuity: registrations + Has on a fresh writer satisfy `deferred_lazy`'s premise. -/
 example : ∀ op ∈ [DOp.onPut 1 true, DOp.has ⟨1, 0x55, 0, []⟩, DOp.onPut 2 false], lazyOp op = true := by decide
